@@ -98,18 +98,21 @@ Section C16.
   (** Partitions, for every oracle: Bell(n) members (Bell numbers by the Stirling recurrence the
       code follows: exactly stirling2 n j members have j blocks); each member is a partition of
       the operand — blocks are well-formed non-empty sets of the operand's kind, pairwise
-      disjoint, covering exactly the operand; members are pairwise different partitions. *)
-  Theorem C16_partitions_partial :
+      disjoint, covering exactly the operand; members are pairwise different partitions; and
+      every partition of the operand (given abstractly as non-empty pairwise disjoint covering
+      lists) occurs: some member has, as sets, exactly its blocks. *)
+  Theorem C16_partitions :
     forall (s : vset A) (t : nat), inv A cmp s ->
       exists Ps t', partitions A eqb cmp draw (S (length (vm s))) s t = Ok (Ps, t') /\ vk Ps = Unordered /\
         length (vm Ps) = bell (length (vm s)) /\
         (forall j, cnt A j (vm Ps) = stirling2 (length (vm s)) j) /\
         Forall (goodpart A cmp (vk s) (vm s)) (vm Ps) /\
-        pdistinct A (vm Ps).
+        pdistinct A (vm Ps) /\
+        complete A (vm s) (vm Ps).
   Proof.
     intros s t Hs.
     destruct (partitions_spec A eqb cmp draw eqb_spec cmp_eq cmp_anti cmp_trans (S (length (vm s))) s t Hs (le_n _))
-      as (Ps & t' & H & K & F & D & C & B).
+      as (Ps & t' & H & K & F & D & C & B & Com).
     exists Ps, t'. split; [exact H|]. split; [exact K|]. split; [|auto].
     eapply (partitions_count A eqb cmp draw); eauto.
   Qed.
@@ -146,6 +149,16 @@ Section C16.
         vrun A eqb cmp draw (mkvs A [] 0) cs = Ok (outs, mkvs A (abs A h') (tick h')).
   Proof. intros cs H. eapply (hrun_good A zero grow eqb cmp draw); eauto. apply good_empty. Qed.
 
+  (** End to end on the heap layer: after New and any history of Add/Remove/RemoveAll on that
+      object the heap holds one well-formed object whose member slice represents the
+      mathematical set of the history (insertion order / comparator order as for [repr]). *)
+  Theorem C16_heap_history :
+    forall (k : kind) (hist : list (mut A)),
+      exists h' l, hrun A zero grow eqb cmp draw (empty_heap A) (CNew A k :: map (cmd_of_mut A) hist)
+                   = Ok (ORef A 0 :: map (fun _ => OUnit A) hist, h') /\
+        good A cmp h' /\ abs A h' = [mkv k l] /\ repr A cmp k (s_run A eqb hist) l.
+  Proof. intros; eapply heap_history; eauto. Qed.
+
   (** Clone is independent of its source: the clone is a new object with the same members whose
       backing array is shared with no other object; any sequence of Add/Remove/RemoveAll applied
       to the clone leaves the source's value unchanged, and vice versa. *)
@@ -177,6 +190,14 @@ Example C16_example :
   = [[3;2;0]; [3;2;0]; [0;2;3]]%Z.
 Proof. vm_compute. reflexivity. Qed.
 
+Example C16_powerset_partitions_example :
+  let s := mkv Sorted [1;2;3]%Z in
+  (match powerset Z Z.eqb cmpZ draw_id 4 s 0 with Ok (PS, _) => map (@vm Z) (vm PS) | _ => [] end,
+   match partitions Z Z.eqb cmpZ draw_id 4 s 0 with Ok (Ps, _) => map (fun P => map (@vm Z) (vm P)) (vm Ps) | _ => [] end)
+  = ([[]; [1]; [2]; [1;2]; [3]; [1;3]; [2;3]; [1;2;3]],
+     [[[1];[2];[3]]; [[1;2];[3]]; [[2];[1;3]]; [[1];[2;3]]; [[1;2;3]]])%Z.
+Proof. vm_compute. reflexivity. Qed.
+
 Example C16_bell_values : (map bell [0;1;2;3;4;5;6] = [1;1;2;5;15;52;203])%nat.
 Proof. vm_compute. reflexivity. Qed.
 
@@ -187,8 +208,9 @@ Print Assumptions C16_union.
 Print Assumptions C16_intersection.
 Print Assumptions C16_difference.
 Print Assumptions C16_powerset.
-Print Assumptions C16_partitions_partial.
+Print Assumptions C16_partitions.
 Print Assumptions C16_no_operand_modified.
 Print Assumptions C16_heap_refines_values.
+Print Assumptions C16_heap_history.
 Print Assumptions C16_clone_independent.
 Print Assumptions C16_no_shared_arrays.
